@@ -90,6 +90,7 @@ def run_case(seed, tier, rec, st):
         tg = TypeGen(fam, rng, dc_config_fn=config_fn, allow_pattern=False, mixins=("DataClassDictMixin", "DataClassORJSONMixin"))
         tg.allow_self = False
         tg.allow_stype = False       # a SerializableType without annotations has no schema
+        tg.boxed_prob = 0.25         # overridden serialization is a schema feature of its own
         kind = rng.random()
         facts = {"kind": "grammar"}
         if kind < 0.12:
